@@ -195,6 +195,47 @@ Proof.
   replace (k + (avail_out_ s - k)) with (avail_out_ s) by lia. reflexivity.
 Qed.
 
+Definition fin (s3 : st) (bF bL : bool) : st :=
+  let s4 := if bF then set_sstate s3 SFlushRequested else s3 in
+  if bL then set_sstate s4 SFinished else s4.
+
+Lemma alpha_set_sstate s ss : alpha (set_sstate s ss) = set_sstate (alpha s) ss.
+Proof. reflexivity. Qed.
+
+Lemma alpha_fin s3 bF bL : alpha (fin s3 bF bL) = fin (alpha s3) bF bL.
+Proof. destruct bF, bL; reflexivity. Qed.
+
+Lemma alpha_inplace s1 n lb lbb : avail_out_ s1 = 0 ->
+  alpha (upd_bits (upd_out s1 (next_out s1) (storage s1) (storage_size s1) (tiny s1) (avail_out_ s1)
+                           (wadd64 (total_out_ s1) n)) lb lbb)
+  = upd_bits (upd_out (alpha s1) NoNone [] 0 [] 0 (wadd64 (total_out_ (alpha s1)) n)) lb lbb.
+Proof.
+  intros H. unfold alpha. fs. rewrite H, !wadd64_wadd64, N.add_0_r, N.add_0_l. reflexivity.
+Qed.
+
+Lemma alpha_staged s1 bs ssz lb lbb : avail_out_ s1 = 0 ->
+  alpha (upd_bits (upd_out s1 (NoDyn 0) bs ssz (tiny s1) (lenN bs) (total_out_ s1)) lb lbb)
+  = upd_bits (upd_out (alpha s1) NoNone [] 0 [] 0 (wadd64 (total_out_ (alpha s1)) (lenN bs))) lb lbb.
+Proof.
+  intros H. unfold alpha. fs. rewrite H, !wadd64_wadd64, N.add_0_l. reflexivity.
+Qed.
+
+Lemma fin_facts s3 bF bL :
+  avail_out_ (fin s3 bF bL) = avail_out_ s3 /\ oracle (fin s3 bF bL) = oracle s3 /\ pend (fin s3 bF bL) = pend s3
+  /\ (sstate_ (fin s3 bF bL) <> sstate_ s3 -> bF = true \/ bL = true).
+Proof. destruct bF, bL; repeat split; try reflexivity; intros H; auto; contradiction H; reflexivity. Qed.
+
+Lemma inv_fin s3 bF bL : inv s3 ->
+  (last_bytes_bits s3 <> 0 -> avail_out_ s3 <> 0 ->
+     exists off, next_out s3 = NoDyn off /\ off + avail_out_ s3 + 3 <= storage_size s3 /\ off + avail_out_ s3 + 3 < 2 ^ 32) ->
+  inv (fin s3 bF bL).
+Proof.
+  intros Hi H. unfold fin.
+  assert (HiB : inv (if bF then set_sstate s3 SFlushRequested else s3)).
+  { destruct bF; [|exact Hi]. apply inv_set_sstate; [exact Hi|]. intros _. exact H. }
+  destruct bL; [|exact HiB]. apply inv_set_sstate; [exact HiB|]. intros K; discriminate K.
+Qed.
+
 Definition afterF (op : opk) (s1 : st) (x1 : io) (pre : list N) (R : bool * st * N * list N) : Prop :=
   (avail_in x1 = 0 /\ avail_out_ s1 = 0 /\ R = (true, alpha s1, 0, pre ++ produced x1)) \/
   (~ (avail_in x1 = 0 /\ avail_out_ s1 = 0) /\
@@ -254,7 +295,7 @@ Proof.
            destruct (IH _ _ _ _ _ pre R Hi' Hok Hg' Hrun Haft) as [f0 E].
            exists (S f0). cbn [afast]. change (padcond (alpha s)) with (padcond s). rewrite Cpad.
            change (sstate_ (alpha s)) with (sstate_ s). change (lgwin (alpha s)) with (lgwin s).
-           rewrite Cst', Cgo. cbn [andb]. rewrite <- Eblk, <- EbF, C0. exact E.
+           rewrite Cst', Cgo. cbn [andb]. rewrite <- Eblk, <- EbF, C0. rewrite <- alpha_set_sstate. exact E.
         -- destruct (fast_answer s bL bF (2 * block + 503 <=? cap x) block) as [[a s1']|w|w|] eqn:Efa; try discriminate.
            pose proof (fast_answer_np s bL bF (2 * block + 503 <=? cap x) block Hok) as FA. rewrite Efa in FA.
            destruct FA as [Hok1 [_ [[Ha Ha32] Hsz]]].
@@ -266,65 +307,49 @@ Proof.
            assert (Hst1 : sstate_ s1' = SProcessing) by (rewrite Es1; fs; exact Cst).
            destruct (2 * block + 503 <=? cap x) eqn:Cin.
            ++ (* in place *)
-              match type of Hrun with fast_loop fu op ?s5 ?x2 = _ =>
-                assert (Hi5 : inv s5 /\ all_ok2 (oracle s5) /\ guard_inv s5 x2 /\ avail_out_ s5 = 0) end.
-              { set (sA := upd_bits (upd_out s1' (next_out s1') (storage s1') (storage_size s1') (tiny s1') (avail_out_ s1')
-                                   (wadd64 (total_out_ s1') (lenN (a_out a)))) (a_lb a) (a_lbb a)).
-                assert (HiA : inv sA).
-                { destruct Hi1 as [Hc [Hp [Ht Hl]]]. unfold inv, cursor_ok, pad_ok, sA in *. fs.
-                  split; [exact Hc|]. split; [|split; assumption]. intros H; rewrite Hst1 in H; discriminate H. }
-                assert (HaoA : avail_out_ sA = 0) by (unfold sA; fs; exact Hao1).
-                assert (HstA : sstate_ sA = SProcessing) by (unfold sA; fs; exact Hst1).
-                split; [|split; [|split]].
-                - assert (HiB : inv (if bF then set_sstate sA SFlushRequested else sA)).
-                  { destruct bF; [|exact HiA]. apply inv_set_sstate; [exact HiA|]. intros _ _ H. contradiction. }
-                  destruct bL; [|exact HiB]. apply inv_set_sstate; [exact HiB|]. intros H; discriminate H.
-                - destruct bF, bL; fs; exact Hok1.
-                - apply Hnext; [|reflexivity]. intros Hs. destruct bF; [left; reflexivity|]. destruct bL; [right; reflexivity|].
-                  exfalso. apply Hs. exact HstA.
-                - destruct bF, bL; fs; exact Hao1. }
-              destruct Hi5 as [Hi5 [Hok5 [Hg5 Hao5]]].
+              set (sA := upd_bits (upd_out s1' (next_out s1') (storage s1') (storage_size s1') (tiny s1') (avail_out_ s1')
+                                   (wadd64 (total_out_ s1') (lenN (a_out a)))) (a_lb a) (a_lbb a)) in *.
+              change (fast_loop fu op (fin sA bF bL) (io_push (io_consume x block) (a_out a) (wadd64 (total_out_ s1') (lenN (a_out a))))
+                      = Done (true, s1, x1)) in Hrun.
+              assert (HiA : inv sA).
+              { destruct Hi1 as [Hc [Hp [Ht Hl]]]. unfold inv, cursor_ok, pad_ok, sA in *. fs.
+                split; [exact Hc|]. split; [|split; assumption]. intros H; rewrite Hst1 in H; discriminate H. }
+              assert (HaoA : avail_out_ sA = 0) by (unfold sA; fs; exact Hao1).
+              assert (HstA : sstate_ sA = SProcessing) by (unfold sA; fs; exact Hst1).
+              destruct (fin_facts sA bF bL) as [F1 [F2 [F3 F4]]].
+              assert (Hi5 : inv (fin sA bF bL)) by (apply inv_fin; [exact HiA|]; intros _ H; contradiction).
+              assert (Hok5 : all_ok2 (oracle (fin sA bF bL))) by (rewrite F2; unfold sA; fs; exact Hok1).
+              assert (Hg5 : guard_inv (fin sA bF bL) (io_push (io_consume x block) (a_out a) (wadd64 (total_out_ s1') (lenN (a_out a))))).
+              { apply Hnext; [|reflexivity]. intros Hs. apply F4. rewrite HstA. exact Hs. }
               destruct (IH _ _ _ _ _ pre R Hi5 Hok5 Hg5 Hrun Haft) as [f0 E].
               exists (S f0). cbn [afast]. change (padcond (alpha s)) with (padcond s). rewrite Cpad.
               change (sstate_ (alpha s)) with (sstate_ s). change (lgwin (alpha s)) with (lgwin s).
               rewrite Cst', Cgo. cbn [andb]. rewrite <- Eblk, <- EbF, <- EbL, C0. rewrite Efa'.
-              rewrite (pend_nil _ Hao5) in E. rewrite Hp0. fs_in E. rewrite !app_nil_r in *.
-              change (a_out (erase a)) with (a_out a). change (a_lb (erase a)) with (a_lb a).
-              change (a_lbb (erase a)) with (a_lbb a).
-              rewrite <- app_assoc.
-              clear - E Es1 Cao. subst s1'.
-              destruct bF, bL; unfold alpha in E |- *; fs_in E; fs; rewrite Cao in *;
-                rewrite !wadd64_wadd64 in *; rewrite ?N.add_0_r, ?N.add_0_l in *; exact E.
+              rewrite F3, (pend_nil sA HaoA) in E. rewrite Hp0. fs_in E. rewrite !app_nil_r in *.
+              rewrite alpha_fin in E. unfold sA in E. rewrite (alpha_inplace s1' _ _ _ Hao1) in E.
+              rewrite <- app_assoc. exact E.
            ++ (* staged *)
-              match type of Hrun with fast_loop fu op ?s5 ?x2 = _ =>
-                assert (Hi5 : inv s5 /\ all_ok2 (oracle s5) /\ guard_inv s5 x2 /\ pend s5 = a_out a) end.
-              { set (sA := upd_bits (upd_out s1' (NoDyn 0) (a_out a) (N.max (storage_size s1') (2 * block + 503)) (tiny s1')
-                                   (lenN (a_out a)) (total_out_ s1')) (a_lb a) (a_lbb a)).
-                assert (HiA : inv sA).
-                { destruct Hi1 as [Hc [Hp [Ht Hl]]]. unfold inv, cursor_ok, pad_ok, sA in *. fs.
-                  split; [split; lia|]. split; [|split; assumption]. intros H; rewrite Hst1 in H; discriminate H. }
-                assert (HstA : sstate_ sA = SProcessing) by (unfold sA; fs; exact Hst1).
-                split; [|split; [|split]].
-                - assert (HiB : inv (if bF then set_sstate sA SFlushRequested else sA)).
-                  { destruct bF; [|exact HiA]. apply inv_set_sstate; [exact HiA|].
-                    intros _ _ _. exists 0. unfold sA. fs. split; [reflexivity|]. split; lia. }
-                  destruct bL; [|exact HiB]. apply inv_set_sstate; [exact HiB|]. intros H; discriminate H.
-                - destruct bF, bL; fs; exact Hok1.
-                - apply Hnext; [|reflexivity]. intros Hs. destruct bF; [left; reflexivity|]. destruct bL; [right; reflexivity|].
-                  exfalso. apply Hs. exact HstA.
-                - destruct bF, bL; unfold pend, view; fs; apply takeN_all. }
-              destruct Hi5 as [Hi5 [Hok5 [Hg5 Hpd5]]].
+              set (sA := upd_bits (upd_out s1' (NoDyn 0) (a_out a) (N.max (storage_size s1') (2 * block + 503)) (tiny s1')
+                                   (lenN (a_out a)) (total_out_ s1')) (a_lb a) (a_lbb a)) in *.
+              change (fast_loop fu op (fin sA bF bL) (io_consume x block) = Done (true, s1, x1)) in Hrun.
+              assert (HiA : inv sA).
+              { destruct Hi1 as [Hc [Hp [Ht Hl]]]. unfold inv, cursor_ok, pad_ok, sA in *. fs.
+                split; [split; lia|]. split; [|split; assumption]. intros H; rewrite Hst1 in H; discriminate H. }
+              assert (HstA : sstate_ sA = SProcessing) by (unfold sA; fs; exact Hst1).
+              assert (HpdA : pend sA = a_out a) by (unfold sA, pend, view; fs; apply takeN_all).
+              destruct (fin_facts sA bF bL) as [F1 [F2 [F3 F4]]].
+              assert (Hi5 : inv (fin sA bF bL)).
+              { apply inv_fin; [exact HiA|]. intros _ _. exists 0. unfold sA. fs. split; [reflexivity|]. split; lia. }
+              assert (Hok5 : all_ok2 (oracle (fin sA bF bL))) by (rewrite F2; unfold sA; fs; exact Hok1).
+              assert (Hg5 : guard_inv (fin sA bF bL) (io_consume x block)).
+              { apply Hnext; [|reflexivity]. intros Hs. apply F4. rewrite HstA. exact Hs. }
               destruct (IH _ _ _ _ _ pre R Hi5 Hok5 Hg5 Hrun Haft) as [f0 E].
               exists (S f0). cbn [afast]. change (padcond (alpha s)) with (padcond s). rewrite Cpad.
               change (sstate_ (alpha s)) with (sstate_ s). change (lgwin (alpha s)) with (lgwin s).
               rewrite Cst', Cgo. cbn [andb]. rewrite <- Eblk, <- EbF, <- EbL, C0. rewrite Efa'.
-              rewrite Hpd5 in E. rewrite Hp0. fs_in E. rewrite !app_nil_r in *.
-              change (a_out (erase a)) with (a_out a). change (a_lb (erase a)) with (a_lb a).
-              change (a_lbb (erase a)) with (a_lbb a).
-              rewrite <- app_assoc.
-              clear - E Es1 Cao. subst s1'.
-              destruct bF, bL; unfold alpha in E |- *; fs_in E; fs; rewrite Cao in *;
-                rewrite !wadd64_wadd64 in *; rewrite ?N.add_0_r, ?N.add_0_l in *; exact E.
+              rewrite F3, HpdA in E. rewrite Hp0. fs_in E. rewrite !app_nil_r in *.
+              rewrite alpha_fin in E. unfold sA in E. rewrite (alpha_staged s1' _ _ _ _ Hao1) in E.
+              rewrite <- app_assoc. exact E.
       * (* the call returns *)
         inversion Hrun; subst s1 x1; clear Hrun.
         destruct Haft as [[A1 [A2 A3]]|[Hnc [f1 E]]].
@@ -342,4 +367,166 @@ Proof.
            { apply cfc_id. destruct (N.eq_dec (avail_out_ s) 0) as [E0|E0]; [right|left; exact E0].
              intros Hfl. apply Hnc. split; [|exact E0]. apply Hg. rewrite Hfl. discriminate. }
            rewrite Eid in E. exists f1. exact E.
+Qed.
+
+(* ---- configuration fields, cursors ---- *)
+Lemma same_cfg_fast_answer s il ff ip blk a s1 : fast_answer s il ff ip blk = Done (a, s1) -> same_cfg s s1.
+Proof.
+  unfold fast_answer. intros H. destruct (oracle s) as [|a0 rest]; [discriminate|].
+  repeat match type of H with (if ?c then _ else _) = _ => destruct c; try discriminate end.
+  inversion H; subst. unfold same_cfg. fs. repeat split; reflexivity.
+Qed.
+
+Lemma same_cfg_fast_loop : forall fuel op s x r s' x',
+  fast_loop fuel op s x = Done (r, s', x') -> same_cfg s s'.
+Proof.
+  induction fuel as [|f IH]; intros op s x r s' x' Hrun; [discriminate|].
+  cbn [fast_loop] in Hrun.
+  destruct (inject_flush_or_push_output s x) as [[[s1 x1]|]| | |] eqn:Einj; try discriminate.
+  - eapply same_cfg_trans; [eapply same_cfg_inject; exact Einj|eapply IH; exact Hrun].
+  - match type of Hrun with (if ?c then _ else _) = _ => destruct c end.
+    + match type of Hrun with (if ?c then _ else _) = _ => destruct c end.
+      * eapply same_cfg_trans; [|eapply IH; exact Hrun]. unfold same_cfg. fs. repeat split; reflexivity.
+      * destruct (fast_answer _ _ _ _ _) as [[a s1]| | |] eqn:Efa; try discriminate.
+        eapply same_cfg_trans; [eapply same_cfg_fast_answer; exact Efa|].
+        destruct (2 * N.min (2 ^ Z.to_N (lgwin s)) (avail_in x) + 503 <=? cap x);
+        (eapply same_cfg_trans; [|eapply IH; exact Hrun]);
+        match goal with |- context [if ?c then _ else _] => destruct c end;
+        match goal with |- context [if ?c then _ else _] => destruct c end;
+          unfold same_cfg; fs; repeat split; reflexivity.
+    + inversion Hrun; subst. apply same_cfg_cfc.
+Qed.
+
+Lemma all_ok2_all_ok l : all_ok2 l -> all_ok l.
+Proof.
+  unfold all_ok2, all_ok. induction 1 as [|a l [Ha _] _ IH]; [reflexivity|].
+  cbn [forallb]. rewrite Ha, IH. reflexivity.
+Qed.
+
+(* ---- one API call on the one-pass/two-pass path ---- *)
+Lemma call_simF s op payload offered capn s1 x1 pre R :
+  ready s -> fastcond s = true -> op <> OpMeta ->
+  compress_stream s op payload offered capn = Done (true, s1, x1) ->
+  (ready s1 /\ fastcond s1 = true /\ in_off x1 + avail_in x1 = offered)
+  /\ (afterF op s1 x1 pre R -> exists f, afast f op (alpha s) offered (pre ++ pend s) = Done R).
+Proof.
+  intros [Hini [Hi Hok]] Hfc Hop Hrun. unfold compress_stream, compress_stream_from in Hrun.
+  rewrite (ensure_initialized_id s Hini) in Hrun.
+  set (x0 := {| avail_in := offered; in_off := 0; cap := capn; produced := []; total_arg := 0 |}) in *.
+  match type of Hrun with (if ?c then _ else _) = _ => destruct c end; [discriminate|].
+  assert (Eop : opk_eqb op OpMeta = false) by (destruct op; try reflexivity; contradiction Hop; reflexivity).
+  rewrite Eop in Hrun.
+  match type of Hrun with (if ?c then _ else _) = _ => destruct c end; [discriminate|].
+  destruct (negb (sstate_eqb (sstate_ s) SProcessing) && negb (offered =? 0)) eqn:Cg; [discriminate|].
+  fold (fastcond s) in Hrun. rewrite Hfc in Hrun.
+  assert (Hg : guard_inv s x0).
+  { intros Hs. cbn. destruct (sstate_eqb (sstate_ s) SProcessing) eqn:E.
+    - apply sstate_eqb_spec in E. contradiction.
+    - cbn in Cg. apply negb_false_iff in Cg. apply N.eqb_eq; exact Cg. }
+  pose proof (fast_loop_np (loop_fuel offered) op s x0 Hi Hok) as Hnp. rewrite Hrun in Hnp. destruct Hnp as [Hi1 Hok1].
+  pose proof (same_cfg_fast_loop _ _ _ _ _ _ _ Hrun) as Hcfg.
+  assert (Hk : curs offered capn x0) by (unfold curs; cbn; split; lia).
+  destruct (curs_fast_loop offered capn _ _ _ _ _ _ _ (all_ok2_all_ok _ Hok) Hk Hrun) as [K1 _].
+  split.
+  - split; [|split; [rewrite (same_cfg_fastcond _ _ Hcfg); exact Hfc|exact K1]].
+    destruct Hcfg as [C1 _]. split; [rewrite C1; exact Hini|split; assumption].
+  - intros Haft. destruct (fast_sim _ _ _ _ _ _ pre R Hi Hok Hg Hrun Haft) as [f E].
+    exists f. cbn [avail_in produced x0 app] in E. exact E.
+Qed.
+
+Lemma drive_simF : forall caps s op payload chunk acc out sf,
+  ready s -> fastcond s = true -> op <> OpMeta ->
+  drive_q s op payload chunk caps acc = Some (out, sf) ->
+  (ready sf /\ fastcond sf = true /\ avail_out_ sf = 0)
+  /\ exists f, afast f op (alpha s) chunk (acc ++ pend s) = Done (true, alpha sf, 0, out).
+Proof.
+  induction caps as [|c rest IH]; intros s op payload chunk acc out sf Hr Hfc Hop Hd; [discriminate|].
+  cbn [drive_q] in Hd.
+  destruct (compress_stream s op payload chunk c) as [[[[|] s'] x]| | |] eqn:Ecall; try discriminate.
+  destruct (call_simF s op payload chunk c s' x acc (true, alpha sf, 0, out) Hr Hfc Hop Ecall) as [[Hr' [Hfc' Hcur]] Hsim].
+  assert (Hleft : chunk - in_off x = avail_in x) by lia.
+  rewrite Hleft in Hd.
+  destruct ((avail_in x =? 0) && (avail_out_ s' =? 0)) eqn:Cdone.
+  - inversion Hd; subst out sf; clear Hd.
+    apply andb_true_iff in Cdone. destruct Cdone as [D1 D2]. apply N.eqb_eq in D1, D2.
+    split; [split; [exact Hr'|split; assumption]|].
+    apply Hsim. left. repeat split; assumption.
+  - destruct (IH _ _ _ _ _ _ _ Hr' Hfc' Hop Hd) as [Hfin [f1 E]].
+    split; [exact Hfin|]. apply Hsim. right. split.
+    + intros [D1 D2]. rewrite D1, D2 in Cdone. discriminate.
+    + exists f1. rewrite <- app_assoc in E. exact E.
+Qed.
+
+(* logical equivalence of two encoder states: same logical state, same pending bytes *)
+Definition leq (s t : st) : Prop := alpha s = alpha t /\ pend s = pend t.
+
+Theorem out_slicing_call_fast s t op payload chunk caps caps' acc out out' s1 t1 :
+  initialized s = true -> inv s -> all_ok2 (oracle s) -> fastcond s = true ->
+  initialized t = true -> inv t -> all_ok2 (oracle t) ->
+  leq s t -> op <> OpMeta ->
+  drive_q s op payload chunk caps acc = Some (out, s1) ->
+  drive_q t op payload chunk caps' acc = Some (out', t1) ->
+  out = out' /\ leq s1 t1 /\ avail_out_ s1 = 0 /\ avail_out_ t1 = 0.
+Proof.
+  intros Hini Hi Hok Hfc Hini' Hi' Hok' [Ea Ep] Hop D1 D2.
+  assert (Hr : ready s) by (split; [|split]; assumption).
+  assert (Hr' : ready t) by (split; [|split]; assumption).
+  assert (Hfc' : fastcond t = true).
+  { unfold fastcond in *. change (quality t) with (quality (alpha t)). change (catable t) with (catable (alpha t)).
+    change (magic t) with (magic (alpha t)). rewrite <- Ea. exact Hfc. }
+  destruct (drive_simF _ _ _ _ _ _ _ _ Hr Hfc Hop D1) as [[_ [_ A1]] [f1 E1]].
+  destruct (drive_simF _ _ _ _ _ _ _ _ Hr' Hfc' Hop D2) as [[_ [_ A2]] [f2 E2]].
+  rewrite Ea, Ep in E1.
+  pose proof (afast_det _ _ _ _ _ _ _ _ E1 E2) as E.
+  assert (E3 : alpha s1 = alpha t1) by congruence.
+  assert (E4 : out = out') by congruence.
+  split; [exact E4|]. split; [|split; assumption].
+  split; [exact E3|]. rewrite (pend_nil _ A1), (pend_nil _ A2). reflexivity.
+Qed.
+
+Theorem out_slicing_seq_fast : forall calls s t capss capss' acc out out' s1 t1,
+  initialized s = true -> inv s -> all_ok2 (oracle s) -> fastcond s = true ->
+  initialized t = true -> inv t -> all_ok2 (oracle t) ->
+  leq s t ->
+  Forall (fun c => fst (fst c) <> OpMeta) calls ->
+  drive_seq s calls capss acc = Some (out, s1) ->
+  drive_seq t calls capss' acc = Some (out', t1) ->
+  out = out' /\ leq s1 t1 /\ fastcond s1 = true.
+Proof.
+  induction calls as [|[[op chunk] payload] more IH]; intros s t capss capss' acc out out' s1 t1
+    Hini Hi Hok Hfc Hini' Hi' Hok' Hleq Hops D1 D2.
+  - cbn [drive_seq] in D1, D2. inversion D1; inversion D2; subst. split; [reflexivity|split; [exact Hleq|exact Hfc]].
+  - cbn [drive_seq] in D1, D2.
+    destruct capss as [|caps capss]; [discriminate|]. destruct capss' as [|caps' capss']; [discriminate|].
+    destruct (drive_q s op payload chunk caps acc) as [[a1 u1]|] eqn:E1; [|discriminate].
+    destruct (drive_q t op payload chunk caps' acc) as [[a2 u2]|] eqn:E2; [|discriminate].
+    inversion Hops as [|? ? Hop Hrest]; subst. cbn [fst] in Hop.
+    destruct (out_slicing_call_fast _ _ _ _ _ _ _ _ _ _ _ _ Hini Hi Hok Hfc Hini' Hi' Hok' Hleq Hop E1 E2)
+      as [Ea [Hleq1 _]]. subst a2.
+    assert (Hr : ready s) by (split; [|split]; assumption).
+    assert (Hr' : ready t) by (split; [|split]; assumption).
+    assert (Hfc' : fastcond t = true).
+    { destruct Hleq as [Eal _]. unfold fastcond in *. change (quality t) with (quality (alpha t)).
+      change (catable t) with (catable (alpha t)). change (magic t) with (magic (alpha t)). rewrite <- Eal. exact Hfc. }
+    destruct (drive_simF _ _ _ _ _ _ _ _ Hr Hfc Hop E1) as [[[R1 [R2 R3]] [R4 _]] _].
+    destruct (drive_simF _ _ _ _ _ _ _ _ Hr' Hfc' Hop E2) as [[[Q1 [Q2 Q3]] [Q4 _]] _].
+    exact (IH _ _ _ _ _ _ _ _ _ R1 R2 R3 R4 Q1 Q2 Q3 Hleq1 Hrest D1 D2).
+Qed.
+
+(* what logical equivalence means field by field *)
+Lemma leq_fields s t : leq s t ->
+  quality s = quality t /\ lgwin s = lgwin t /\ lgblock s = lgblock t /\ size_hint s = size_hint t
+  /\ sstate_ s = sstate_ t /\ rem_meta s = rem_meta t
+  /\ input_pos s = input_pos t /\ last_flush_pos s = last_flush_pos t /\ last_processed_pos s = last_processed_pos t
+  /\ last_bytes s = last_bytes t /\ last_bytes_bits s = last_bytes_bits t
+  /\ last_emitted s = last_emitted t /\ first_pending s = first_pending t
+  /\ wadd64 (total_out_ s) (avail_out_ s) = wadd64 (total_out_ t) (avail_out_ t)
+  /\ map erase (oracle s) = map erase (oracle t)
+  /\ pend s = pend t.
+Proof.
+  intros [E P].
+  repeat match goal with |- _ /\ _ => split end; try exact P;
+    match goal with |- ?f s = ?f t => change (f (alpha s) = f (alpha t)); rewrite E; reflexivity | _ => idtac end.
+  - change (total_out_ (alpha s) = total_out_ (alpha t)). rewrite E. reflexivity.
+  - change (oracle (alpha s) = oracle (alpha t)). rewrite E. reflexivity.
 Qed.
